@@ -581,6 +581,8 @@ package jsonpatch
 //@   requires patch: patchOK(p) && (forall j int {p[j]} :: 0 <= j && j < len(p) ==> validOp(p[j]))
 //@   ensures[C08] nothing-with-error: err != nil ==> result.0 == nil
 //@   ensures[C16] rejects-ill-formed: len(doc) > 0 && !wf(doc) ==> err != nil
+//@   ensures[C16] rejects-empty-document: len(doc) == 0 ==> err != nil
+//@   callsite[C16] UnmarshalValid#1 container-matches-root-kind: (kind(val(bytes(doc))) == KArr) <==> istype(boxed(arg_v), *partialArray)
 //@   loop 1
 //@   invariant state: conOK(*pd) && err == nil && *accumulatedCopySize >= 0
 
